@@ -62,6 +62,7 @@ var contexts = []context{
 	{"retdefer", "func rdfCTX() TT { a := MK(); defer func() { MUT(&a) }(); return a }\nfunc rdf2CTX() (TT, TT) { a, b := MK(), MK(); defer func() { MUT(&a); MUT2(&b) }(); return a, b }\nfunc rdf3CTX(p TT) TT { defer func() { MUT(&p) }(); return p }\nfunc rdf4CTX() TT { a := MK(); defer func() { recover(); MUT2(&a) }(); func() { defer func() { MUT(&a) }() }(); return a }\nfunc rdf5CTX() TT { a := MK(); c := make(chan bool); go func() { <-c; MUT(&a); c <- true }(); defer func() { c <- true; <-c }(); return a }", `out("local", SHOW(rdfCTX())); x, y := rdf2CTX(); out("tuple", SHOW(x)+"/"+SHOW(y)); out("param", SHOW(rdf3CTX(MK()))); out("nested", SHOW(rdf4CTX())); out("goroutine", SHOW(rdf5CTX()))`},
 	{"rangeslice", "", `sl := []TT{MK(), MK()}; for i, v := range sl { MUT(&v); out("dst"+itoa(int64(i)), SHOW(sl[i])); MUT2(&sl[i]); out("src"+itoa(int64(i)), SHOW(v)) }`},
 	{"rangearray", "", `{ arr := [2]TT{MK(), MK()}; for i, v := range arr { if i == 0 { MUT(&arr[1]) }; out("later"+itoa(int64(i)), SHOW(v)) } }; { arr := [2]TT{MK(), MK()}; for i, v := range arr { MUT(&v); out("dst"+itoa(int64(i)), SHOW(arr[i])) } }; { arr2 := [2]TT{MK(), MK()}; pa := &arr2; for i, v := range pa { if i == 0 { MUT(&pa[1]) }; out("ptr"+itoa(int64(i)), SHOW(v)) } }`},
+	{"rangecall", "var rcCTX [2]TT\nfunc getrcCTX() [2]TT { return rcCTX }\ntype hrcCTX struct{ cells [2]TT }\nfunc (h *hrcCTX) Cells() [2]TT { return h.cells }\nfunc (h hrcCTX) ValCells() [2]TT { return h.cells }", `rcCTX = [2]TT{MK(), MK()}; for i, v := range getrcCTX() { if i == 0 { MUT(&rcCTX[1]) }; out("func"+itoa(int64(i)), SHOW(v)) }; h := &hrcCTX{[2]TT{MK(), MK()}}; for i, v := range h.Cells() { if i == 0 { MUT(&h.cells[1]) }; out("method"+itoa(int64(i)), SHOW(v)) }; for i, v := range h.ValCells() { if i == 0 { MUT2(&h.cells[1]) }; out("valmethod"+itoa(int64(i)), SHOW(v)) }; for i, v := range [2]TT(h.cells) { if i == 0 { MUT(&h.cells[1]) }; out("conv"+itoa(int64(i)), SHOW(v)) }; ph := &h.cells; for i, v := range *ph { if i == 0 { MUT2(&ph[1]) }; out("deref"+itoa(int64(i)), SHOW(v)) }`},
 	{"rangemap", "", `m := map[Int]TT{1: MK()}; for k, v := range m { MUT(&v); out("dst", SHOW(m[k])); w := m[k]; MUT2(&w); m[k] = w; out("src", SHOW(v)) }`},
 	{"chan", "", `a := MK(); c := make(chan TT, 2); c <- a; MUT(&a); b := <-c; out("src", SHOW(b)); c <- b; MUT2(&b); out("dst", SHOW(<-c)); u := make(chan TT); go func() { x := MK(); u <- x; MUT(&x); u <- x }(); r1 := <-u; r2 := <-u; out("unbuf", SHOW(r1)+"/"+SHOW(r2))`},
 	{"select", "", `a := MK(); c := make(chan TT, 1); select { case c <- a: out("sent", "") }; MUT(&a); var b TT; select { case b = <-c: }; out("src", SHOW(b)); c <- a; select { case d, ok := <-c: MUT2(&a); out("recvok", SHOW(d)+btoa(ok)) }`},
